@@ -350,6 +350,32 @@ pub fn exec_case(kind: &str, arg: &str, data: &[u8]) -> String {
                 }
             }
         }
+        "hdr" => {
+            // one element header (arg = transfer syntax) and one item header
+            use dicom_encoding::decode::DecodeFrom;
+            eprintln!("@stage read");
+            let ts = ts_of(arg);
+            let r = std::panic::catch_unwind(std::panic::AssertUnwindSafe(|| {
+                let dec = ts.decoder_for::<&[u8]>().ok_or(())?;
+                let mut src: &[u8] = data;
+                dec.decode_header(&mut src).map(|(_, n)| n).map_err(|_| ())
+            }));
+            out.push(match r {
+                Ok(Ok(n)) => format!("read:ok={}", n),
+                Ok(Err(())) => "read:err".into(),
+                Err(_) => format!("read:panic:{}", LAST_PANIC.lock().unwrap().take().unwrap_or_default()),
+            });
+            let r = std::panic::catch_unwind(std::panic::AssertUnwindSafe(|| {
+                let dec = ts.decoder_for::<&[u8]>().ok_or(())?;
+                let mut src: &[u8] = data;
+                dec.decode_item_header(&mut src).map(|_| ()).map_err(|_| ())
+            }));
+            out.push(match r {
+                Ok(Ok(())) => "item:ok".into(),
+                Ok(Err(())) => "item:err".into(),
+                Err(_) => format!("item:panic:{}", LAST_PANIC.lock().unwrap().take().unwrap_or_default()),
+            });
+        }
         "text" => {
             // arg = which parser; data = the string (lossy UTF-8 for the `&str` parsers)
             eprintln!("@stage read");
